@@ -127,7 +127,15 @@
       for EVERY coherent chain, the stock chain with strikethrough included, on contents without
       backslash-backtick-backtick (code spans with ANY backtick runs); `doc_total_noesctick`,
       `doc_total_src_noesc`, `doc_total_stock`.
-      NOT YET COVERED: contents with an escaped backtick directly in front of a backtick (K3, see OPEN) (`BackL2`: `back_L2` needs the two caches to agree on
+      FIFTH PART (`Lemmas/MemoSafeLamES*.lean`, namespace `MdIt.Inline.ES`: the same two developments once
+      more, with the position invariant `EPc` — a state at which rules run is never at an ESCAPED character
+      (`esc`: odd number of backslashes right before) —, the cache invariant `NL` — no mark of
+      `inside_failed` sits right behind an escaped character —, and `IFP` refined to positions whose
+      previous character is not escaped; `endHyp_holds` without text hypothesis, `endEP_holds`,
+      `stepEP_holds`, `landHyp_holds`): **`parseInline_total` — total for EVERY coherent chain on EVERY
+      content**; `memoSafe_of_coherent`; whole document `doc_total_coherent_all`, `doc_total_src_all`,
+      `doc_total_stock_notab` (FIFTH PART at the end of the file; what is still open: see there).
+      (ABOUT `BackL2`, fourth and fifth part: `back_L2` needs the two caches to agree on
       `inside_failed.contains pos` — true at every position not strictly inside a backtick run
       (`inside_agree_of_not_interior`); at a position strictly inside a run (reached after a failed
       opener, or behind an escaped backtick) it is a fact about the HISTORY of the shared cache: the
@@ -152,8 +160,11 @@
   (emphasis on `[` in front of the link rule: the real delimiter run steps INTO a look-ahead link
   token; the memo ends up crossing, yet no hit lies beyond `pos_max`).
 
-  OPEN: see the end of the file (statement of (L3), the invariants its proof needs — all validated by
-  the brute-force runs —, and which lemmas are already there).
+  OPEN: NOTHING for the inline pass of coherent chains — `parseInline_total` (FIFTH PART, end of the file)
+  is proved without going through (L3), which stays unproved and is no longer needed.  What remains for
+  C01 as a whole: sources with a tab split by a container indent (`NoSplitTab`; `Props/TotalTabs`), and
+  non-coherent custom chains, for which the panic is real (`witness_panics`).  The "OPEN after the fourth
+  part" block further down is kept for the record; the FIFTH PART closes it.
 -/
 import MdIt.Lemmas.MemoSafeLabel
 import MdIt.Lemmas.MemoSafeEntry
@@ -164,6 +175,7 @@ import MdIt.Lemmas.MemoSafeLamFinal
 import MdIt.Lemmas.MemoSafeLamDoc
 import MdIt.Lemmas.MemoSafeLamBack2
 import MdIt.Lemmas.MemoSafeLamCSDoc
+import MdIt.Lemmas.MemoSafeLamESDoc
 import MdIt.Props.InlineTotal
 
 namespace MdIt.Inline
@@ -487,5 +499,138 @@ def memoDoc2 : List Char :=
 example : (∃ t, parseDoc (exCfg true 100) memoDoc2 = .ok t) ∧
     ∀ x, ∃ html, renderDoc x (exCfg true 100) memoDoc2 = .ok html :=
   doc_total_stock true 100 memoDoc2 (by decide +kernel) (by decide +kernel) (by decide +kernel)
+
+end MdIt.Pipeline
+
+/-! # FIFTH PART — the escape landing: no hypothesis on the text -/
+
+namespace MdIt.Inline
+open MdIt.InlineOps (Srcmap getSourcePosFor getMap byteLen slice)
+
+/-- **C01, inline pass, UNCONDITIONAL for coherent chains: `md.inline.parse` never panics.**
+    For every chain that is `ChainCoherent` (decidable: every emphasis marker is a single byte at which
+    no rule of the chain answers in look-ahead mode — true of the stock chain with strikethrough and of
+    every shipped configuration) and lists the link rule and the image rule at most once each, for EVERY
+    content (any runs of backticks, escaped backticks anywhere), every `max_nesting` (0 included), every
+    reference map and every `MapOK` offset table, the inline parser returns a tree.  This is the theorem
+    `parseInline_total` that `Props/InlineTotal.lean` left open (there without `hone`: see OPEN below). -/
+theorem parseInline_total (cfg : Cfg) (hc : ChainCoherent cfg = true)
+    (hone : cfg.chain.count .link ≤ 1 ∧ cfg.chain.count .image ≤ 1) {content : List Char}
+    {mapping : Srcmap} (hm : MapOK content mapping) :
+    ∃ cs, parseInline cfg content mapping = .ok cs :=
+  ES.parseInline_total cfg hc hone hm
+
+/-- … in the terms of `Props/InlineTotal.lean`: the memo check passes, i.e. the guard of the guarded
+    tokenizer (a `skip_token` memo hit beyond the current `pos_max`) never trips -/
+theorem memoSafe_of_coherent (cfg : Cfg) (hc : ChainCoherent cfg = true)
+    (hone : cfg.chain.count .link ≤ 1 ∧ cfg.chain.count .image ≤ 1) {content : List Char}
+    {mapping : Srcmap} (hm : MapOK content mapping) : memoSafe cfg content mapping = true := by
+  obtain ⟨cs, hcs⟩ := parseInline_total cfg hc hone hm
+  unfold memoSafe
+  rw [ES.parseInlineG_eq_all cfg hc hone hm, hcs]
+
+-- the hypotheses hold for the STOCK chain with strikethrough, whatever `max_nesting`
+example : ChainCoherent (stockCfg 100) = true ∧
+    (stockCfg 100).chain.count .link ≤ 1 ∧ (stockCfg 100).chain.count .image ≤ 1 := by decide +kernel
+
+/-- the STOCK chain with strikethrough: EVERY one-line content parses, whatever `max_nesting` -/
+theorem parseInline_total_stock (n : Nat) (content : List Char) :
+    ∃ cs, parseInline (stockCfg n) content [(0, 0)] = .ok cs :=
+  parseInline_total (stockCfg n)
+    (by show ChainCoherent (stockCfg 0) = true; decide +kernel)
+    (by show (stockCfg 0).chain.count .link ≤ 1 ∧ (stockCfg 0).chain.count .image ≤ 1; decide)
+    (mapOK_single content)
+
+-- the theorem covers what the fourth part excluded: backslash-backtick-backtick, at the top and inside a
+-- link label, below and at the nesting limit (kernel evaluation agrees: text + code span, link + text, …)
+example : ¬ CS.NoEscTickTick "\\``a``".toList ∧ ¬ CS.NoEscTickTick "[x \\``a`` `b](u) ``".toList := by
+  decide +kernel
+example : (match parseInline (stockCfg 100) "\\``a``".toList [(0, 0)] with
+    | .ok cs => cs.length | .error _ => 0) = 2 := by decide +kernel
+example : (match parseInline (stockCfg 100) "[x \\``a`` `b](u) ``".toList [(0, 0)] with
+    | .ok cs => cs.length | .error _ => 0) = 2 := by decide +kernel
+example : (match parseInline (stockCfg 0) "[x \\``a`` `b](u) ``".toList [(0, 0)] with
+    | .ok cs => cs.length | .error _ => 0) = 1 := by decide +kernel
+example : ∃ cs, parseInline (stockCfg 100) "[x \\``a`` `b](u) ``".toList [(0, 0)] = .ok cs :=
+  parseInline_total_stock 100 _
+-- `ChainCoherent` is necessary: `witness_panics` (`Props/InlineTotal.lean`) — and the witness chain is not coherent
+example : ChainCoherent witnessCfg = false := by decide +kernel
+
+/-
+  OPEN after the fifth part (inline pass).
+
+  PROVED: `parseInline_total` — every `ChainCoherent` chain with the link rule and the image rule at most
+  once each, EVERY content, every `max_nesting`, reference map, `MapOK` table; `memoSafe_of_coherent`.
+  NOT COVERED, and why:
+   * non-coherent custom chains: the panic is REAL (`witness_panics`, model and crate);
+   * chains that list the link rule or the image rule TWICE (`hone`; no shipped configuration does; the
+     statement of `Props/InlineTotal.lean` had no such hypothesis — `just_link_call` identifies the
+     witness of a link token with THE link rule of the chain; no counterexample is known);
+   * (L3) laminarity of the memo itself is not proved — it is no longer needed.
+-/
+
+end MdIt.Inline
+
+/-! ## whole document, fifth part -/
+
+namespace MdIt.Pipeline
+open MdIt
+
+/-- **C01, whole pipeline, EVERY coherent inline chain, every text**: for every configuration with the
+    paragraph rule whose inline chain is `ChainCoherent` (link / image rule at most once each), every
+    source within the `i32` size bound in which no tab is split by a container indent (`NoSplitTab`),
+    `md.parse(src)` returns a tree and `render` / `xrender` return a string.  No hypothesis on backticks
+    or backslashes any more. -/
+theorem doc_total_coherent_all (cfg : DocCfg) (src : List Char)
+    (hc : Inline.ChainCoherent (cfg.inlineCfg []) = true)
+    (hone : cfg.inlineChain.count .link ≤ 1 ∧ cfg.inlineChain.count .image ≤ 1)
+    (hsmall : 4 * Lines.byteLen src + 8 < 2147483648) (hpara : cfg.hasPara = true)
+    (hnv : NoSplitTab cfg src) :
+    (∃ t, parseDoc cfg src = .ok t) ∧ ∀ x, ∃ html, renderDoc x cfg src = .ok html :=
+  doc_total_coherent cfg src hc hone hsmall hpara hnv
+
+/-- … with hypotheses on the SOURCE only: the source has no tab (then no tab is split) and is within the
+    size bound -/
+theorem doc_total_src_all (cfg : DocCfg) (src : List Char)
+    (hc : Inline.ChainCoherent (cfg.inlineCfg []) = true)
+    (hone : cfg.inlineChain.count .link ≤ 1 ∧ cfg.inlineChain.count .image ≤ 1)
+    (hsmall : 4 * Lines.byteLen src + 8 < 2147483648) (hpara : cfg.hasPara = true)
+    (htab : '\t' ∉ src) :
+    (∃ t, parseDoc cfg src = .ok t) ∧ ∀ x, ∃ html, renderDoc x cfg src = .ok html :=
+  doc_total_coherent_src cfg src hc hone hsmall hpara htab
+
+/-- **C01 for the STOCK configuration with strikethrough** (`exCfg`: CommonMark block and inline chains,
+    `*`, `_`, `~~`), any `max_nesting`, sourcepos on or off: `md.parse(src)` returns a tree and `render` /
+    `xrender` return a string for EVERY source without a tab character, within the `i32` size bound — no
+    evaluation, no hypothesis on the run, no hypothesis on the text besides "no tab". -/
+theorem doc_total_stock_notab (sp : Bool) (mn : Nat) (src : List Char)
+    (hsmall : 4 * Lines.byteLen src + 8 < 2147483648) (htab : '\t' ∉ src) :
+    (∃ t, parseDoc (exCfg sp mn) src = .ok t) ∧ ∀ x, ∃ html, renderDoc x (exCfg sp mn) src = .ok html :=
+  doc_total_stock_all sp mn src htab hsmall
+
+/-- a document with backslash-backtick-backtick in a quoted paragraph, in a link label of a list item and
+    in a heading -/
+def memoDoc3 : List Char :=
+  "> \\``a`` ![b [c](d)](e) [x]\n\n- *e* ~~s~~ [f \\``g ` h``](i) ```j```\n\n# \\\\\\``k``\n\n[x]: /u".toList
+
+example : ¬ Inline.CS.NoEscTickTick memoDoc3 := by decide +kernel
+
+example : (∃ t, parseDoc (exCfg true 100) memoDoc3 = .ok t) ∧
+    ∀ x, ∃ html, renderDoc x (exCfg true 100) memoDoc3 = .ok html :=
+  doc_total_stock_notab true 100 memoDoc3 (by decide +kernel) (by decide +kernel)
+
+-- `max_nesting = 0` is covered too
+example : (∃ t, parseDoc (exCfg false 0) memoDoc3 = .ok t) ∧
+    ∀ x, ∃ html, renderDoc x (exCfg false 0) memoDoc3 = .ok html :=
+  doc_total_stock_notab false 0 memoDoc3 (by decide +kernel) (by decide +kernel)
+
+/-
+  OPEN after the fifth part (whole document): the hypothesis `NoSplitTab cfg src` of
+  `doc_total_coherent_all` — a tab of a paragraph line that a container indent (list item, block quote)
+  splits into virtual spaces gives a per-paragraph offset table outside `MapOK`; `doc_total_src_all` /
+  `doc_total_stock_notab` discharge it for sources WITHOUT any tab.  Sources with split tabs are being done
+  separately (`Props/TotalTabs`).  The size bound is the crate's `i32` arithmetic; the paragraph rule is
+  part of every shipped block chain.
+-/
 
 end MdIt.Pipeline
